@@ -202,3 +202,10 @@ package actionlint
 // C06: the default value of a typed workflow_call input is only rejected for a type that is known
 //@ func (*RuleExpression).VisitWorkflowPre
 //@   at_call [C06] (*RuleBase).Errorf: len(ts) == 1 ==> !istype(ts[0].ty, "AnyType")
+
+// the element type of a JSON array literal is the merge of all its element types: every element after
+// the first is merged into the accumulated type (a conflict stays `any`, it is never overwritten)
+//@ func typeOfJSONValue
+//@   props C06
+//@   loop "range v":
+//@     body_calls iface:ExprType.Merge iff elem != nil
